@@ -542,7 +542,9 @@ class FunctionPlugin(PrimitivePlugin):
                 aval = getattr(tracer, "aval", None)
                 if aval is not None:
                     return jax.ShapeDtypeStruct(
-                        tuple(getattr(aval, "shape", ())), getattr(aval, "dtype", None)
+                        tuple(getattr(aval, "shape", ())),
+                        getattr(aval, "dtype", None),
+                        weak_type=bool(getattr(aval, "weak_type", False)),
                     )
                 return tracer
             return value
@@ -550,7 +552,11 @@ class FunctionPlugin(PrimitivePlugin):
         kwargs = {k: _coerce_kwarg(v) for k, v in kwargs.items() if k != "instance_key"}
         specs = [
             (
-                jax.ShapeDtypeStruct(arg.shape, arg.dtype)
+                jax.ShapeDtypeStruct(
+                    arg.shape,
+                    arg.dtype,
+                    weak_type=bool(getattr(arg, "weak_type", False)),
+                )
                 if isinstance(arg, ShapedArray)
                 else arg
             )
@@ -896,7 +902,11 @@ class FunctionPlugin(PrimitivePlugin):
                                 actual_dim = int(candidate)
                 resolved_shape.append(actual_dim)
             dtype = getattr(aval, "dtype", None) or np.float32
-            return jax.ShapeDtypeStruct(tuple(resolved_shape), dtype)
+            return jax.ShapeDtypeStruct(
+                tuple(resolved_shape),
+                dtype,
+                weak_type=bool(getattr(aval, "weak_type", False)),
+            )
 
         dynamic_entries: list[dict[str, Any]] = []
         static_params: dict[str, Any] = {}
@@ -931,12 +941,14 @@ class FunctionPlugin(PrimitivePlugin):
                     except TypeError:
                         dtype_np = np.dtype(np.float32)
                     dtype_for_capture = dtype_np
+                    entry_weak = bool(getattr(aval, "weak_type", False))
                 else:
                     arr = np.asarray(original_val)
                     shape = tuple(arr.shape)
                     dtype_np = arr.dtype
                     dtype_for_capture = dtype_np
-                entry_sds = jax.ShapeDtypeStruct(shape, dtype_np)
+                    entry_weak = False
+                entry_sds = jax.ShapeDtypeStruct(shape, dtype_np, weak_type=entry_weak)
                 dynamic_entries.append(
                     {
                         "name": pname,
@@ -1079,7 +1091,10 @@ class FunctionPlugin(PrimitivePlugin):
                 aval = getattr(v, "aval", None)
                 sds.append(
                     jax.ShapeDtypeStruct(
-                        tuple(getattr(aval, "shape", ())), getattr(aval, "dtype", None)
+                        tuple(getattr(aval, "shape", ())),
+                        getattr(aval, "dtype", None),
+                        # a Python scalar argument stays weakly typed in the body
+                        weak_type=bool(getattr(aval, "weak_type", False)),
                     )
                 )
 
